@@ -44,6 +44,8 @@ type Exec struct {
 	strLits  map[string]string
 	pure     int
 	discover int
+	curBlock *ssa.BasicBlock // block of the call instruction being executed
+	siteHits map[string]int  // callsite clauses matched by a call
 	globals  map[string]string
 	usedSpecs map[string]bool
 	assumedSpecs map[string]bool
@@ -102,6 +104,10 @@ type loopInfo struct {
 	backPred map[int]bool
 	variant0 string
 	spec     *LoopSpec
+	entrySt  *State
+	entryVar map[string]Value
+	headSt   *State
+	headVar  map[string]Value
 }
 
 type retInfo struct {
@@ -1501,6 +1507,7 @@ func (x *Exec) loopHeader(fr *Frame, l *loopInfo, stEntry *State, ins []edgeIn, 
 				env.vars[phi.Comment] = v
 			}
 		}
+		env.loopOld, env.loopVars = stEntry, env.vars
 		for _, c := range l.spec.Invs {
 			p, alt := x.evalBoolAlt(env, c.Expr)
 			x.obligeAlt(fr, stEntry, fmt.Sprintf("loop%d/inv-entry:%s", l.ordinal, c.Label), "loop-invariant", p, alt, c)
@@ -1598,12 +1605,23 @@ func (x *Exec) loopHeader(fr *Frame, l *loopInfo, stEntry *State, ins []edgeIn, 
 		}
 	}
 	// 4. assume invariant
+	l.entrySt, l.entryVar = stEntry, map[string]Value{}
+	for phi, v := range entryVals {
+		if phi.Comment != "" {
+			l.entryVar[phi.Comment] = v
+		}
+	}
 	if l.spec != nil {
 		env := x.newEnv(fr, st, b)
 		for _, phi := range phis {
 			if phi.Comment != "" {
 				env.vars[phi.Comment] = fr.vals[phi]
 			}
+		}
+		env.loopOld, env.loopVars = l.entrySt, l.entryVar
+		l.headVar = map[string]Value{}
+		for k, v := range env.vars {
+			l.headVar[k] = v
 		}
 		for _, c := range l.spec.Invs {
 			p := x.evalBool(env, c.Expr)
@@ -1614,6 +1632,7 @@ func (x *Exec) loopHeader(fr *Frame, l *loopInfo, stEntry *State, ins []edgeIn, 
 			l.variant0 = x.em.define("variant", "(_ BitVec 64)", x.term(x.toBV64(v)))
 		}
 	}
+	l.headSt = st.clone()
 	return st
 }
 
@@ -1648,9 +1667,22 @@ func (x *Exec) backEdge(fr *Frame, l *loopInfo, from *ssa.BasicBlock, st *State)
 			env.vars[phi.Comment] = x.coerce(x.value(fr, phi.Edges[idx]), phi.Type())
 		}
 	}
+	env.loopOld, env.loopVars = l.entrySt, l.entryVar
+	env.iterOld, env.iterVars = l.headSt, l.headVar
 	for _, cl := range l.spec.Invs {
 		p, alt := x.evalBoolAlt(env, cl.Expr)
 		x.obligeAlt(fr, est, fmt.Sprintf("loop%d/inv-step:%s", l.ordinal, cl.Label), "loop-invariant", p, alt, cl)
+	}
+	for _, cl := range l.spec.Steps {
+		// the step clause talks about the iteration that just ended: header variables
+		// have their values of that iteration's start unless read through the back edge
+		senv := *env
+		senv.vars = map[string]Value{}
+		for k, v := range env.vars {
+			senv.vars[k] = v
+		}
+		p, alt := x.evalBoolAlt(&senv, cl.Expr)
+		x.obligeAlt(fr, est, fmt.Sprintf("loop%d/step:%s", l.ordinal, cl.Label), "loop-invariant", p, alt, cl)
 	}
 	if l.spec.Decr != nil && l.variant0 != "" {
 		v := x.term(x.toBV64(x.evalExpr(env, l.spec.Decr.Expr)))
